@@ -24,3 +24,30 @@ Theorem C18_view_raw_filter step from until ps p :
   In p ps /\ (from = 0 \/ from < p_time p) /\ p_time p <= (if until =? from then ts_add until step else until).
 Proof. exact (filter_raw_in step from until ps p). Qed.
 Print Assumptions C18_view_raw_filter.
+
+(** ** "every non-NaN point shown by view whose time lies inside the requested range appears in
+    view-raw with the same time and value" — for ANY slot contents (Proofs/ViewProofs.v).
+    Library level: a non-NaN fetched value is a physical slot carrying exactly the fetched
+    instant.  Command level: the view record is among view-raw's records (sorted or not). *)
+From WT Require Import Spec.LogSpec Proofs.TimeProofs Proofs.RingProofs Proofs.FetchProofs Proofs.ViewProofs.
+
+Theorem C18_fetched_value_is_a_stored_point arcs id a from until now s k :
+  0 <= id -> nth_error arcs (Z.to_nat id) = Some a -> wf_arc a ->
+  period a <= now -> now + 2 * a_step a < TMAX ->
+  0 <= from < 2^32 -> 0 <= until < 2^32 -> from <= until ->
+  fetch_from_archive arcs id from until now = FSeries s ->
+  (k < length (s_vals s))%nat -> is_nan (nth k (s_vals s) NaN) = false ->
+  In (mkPoint (s_from s + Z.of_nat k * s_step s) (nth k (s_vals s) NaN)) (a_slots a).
+Proof. exact (fetched_value_is_a_stored_point arcs id a from until now s k). Qed.
+Print Assumptions C18_fetched_value_is_a_stored_point.
+
+Theorem C18_view_point_is_in_view_raw f h id from until0 now sh sh' sort a t v :
+  opened f = Some h -> 0 <= id -> nth_error (hd_arcs h) (Z.to_nat id) = Some a -> wf_arc a ->
+  period a <= now -> now + 2 * a_step a < TMAX ->
+  0 <= from < 2^32 -> 0 <= resolve_until until0 now < 2^32 -> from <= resolve_until until0 now ->
+  In (RPoint id t v) (snd (view_cmd f id from until0 now sh)) -> is_nan v = false ->
+  (from = 0 \/ from < t) ->
+  t <= (if resolve_until until0 now =? from then ts_add (resolve_until until0 now) (a_step a) else resolve_until until0 now) ->
+  In (RPoint id t v) (snd (view_raw_cmd f id from until0 now sh' sort)).
+Proof. exact (view_point_is_in_view_raw f h id from until0 now sh sh' sort a t v). Qed.
+Print Assumptions C18_view_point_is_in_view_raw.
